@@ -6,6 +6,7 @@
 #include "common.h"
 #include "wgl.h"
 #include <urcu/rculfqueue.h>
+#include <urcu/static/rculfqueue.h>	/* struct cds_lfq_node_rcu_dummy (to recognise a dummy handed to call_rcu) */
 #include <urcu/call-rcu.h>
 
 enum { OP_ENQ, OP_DEQ, OP_DEQ_REENQ, OP_NK };
@@ -30,8 +31,110 @@ static void free_node_cb(struct rcu_head *h)
 	free(caa_container_of(h, struct lnode, rh));
 }
 
+/*
+ * Witness steering. If a node leaves the queue (returned by dequeue, or a dummy
+ * handed to call_rcu) while q->tail still points to it, a use-after-free is one
+ * legal continuation away: a thread that starts its read-side section after the
+ * node's grace period has begun can still load the node from q->tail and write to
+ * it after it has been reclaimed. Instead of waiting for a scheduler to stumble
+ * on that continuation (three more precisely placed preemptions), the thread
+ * that observes the state drives it, with the real library code and nothing but
+ * legal scheduling (freezing threads where they stand):
+ *   1. every other script thread is frozen (among them the enqueuer that linked
+ *      its node but has not moved the tail yet, inside its read-side section);
+ *   2. the node's grace period is started (user node: a helper thread calls
+ *      synchronize_rcu() and then frees it; dummy: the library's call_rcu);
+ *   3. a fresh thread enters a read-side section, starts cds_lfq_enqueue_rcu()
+ *      and is suspended right after it has sampled q->tail;
+ *   4. the others are released: the tail moves on, the grace period ends, the
+ *      node is freed; the fresh thread resumes.
+ * If the library is right nothing bad can happen (and on the unchanged tree the
+ * state is never observed); if it is wrong the tracked arena reports the
+ * use-after-free.
+ */
+static int sim_tid_of[MAX_SCRIPT_THREADS], steered, probe_id = 60;
+static struct cds_lfq_node_rcu *latent_dummy;
+
+HARNESS_BOOKKEEPING static int tail_is(const struct cds_lfq_node_rcu *n)
+{
+	return q.tail == n;
+}
+
+static void *steer_gp_thread(void *arg)
+{
+	struct lnode *n = arg;
+	usim_thread_name("steer-gp");
+	if (!F->is_bp)
+		F->register_thread();
+	F->synchronize_rcu();
+	free(n);
+	if (!F->is_bp)
+		F->unregister_thread();
+	return NULL;
+}
+
+static void *steer_probe_thread(void *arg)
+{
+	struct lnode *p = arg;
+	int i;
+	usim_thread_name("steer-probe");
+	if (!F->is_bp)
+		F->register_thread();
+	cds_lfq_node_init_rcu(&p->n);
+	F->read_lock();
+	i = wgl_begin(&H, WQ_ENQ, 0, p->id);
+	usim_stall_plan(2, 8000);	/* after the load of q->tail, before the cmpxchg on tail->next */
+	cds_lfq_enqueue_rcu(&q, &p->n);
+	usim_stall_cancel();
+	wgl_end(&H, i, -1);
+	F->read_unlock();
+	if (!F->is_bp)
+		F->unregister_thread();
+	return NULL;
+}
+
+/* returns 1 if `victim` (a user node) has been reclaimed here */
+static int steer(struct lnode *victim)
+{
+	pthread_t g = 0, pr;
+	struct lnode *p;
+	int t, me = usim_tid();
+
+	if (steered || usim_in_quiet())
+		return 0;
+	steered = 1;
+	usim_probe("lfq.steered_from_removed_node_still_tail");
+	for (t = 0; t < nthreads; t++)
+		if (!scripts[t].skip && sim_tid_of[t] > 0 && sim_tid_of[t] != me)
+			usim_freeze(sim_tid_of[t], 1);
+	if (F->is_qsbr)
+		F->thread_offline();
+	if (victim)
+		pthread_create(&g, NULL, steer_gp_thread, victim);
+	usleep(30000);
+	p = malloc(sizeof(*p));
+	usim_mem_tag(p, "lfq-node");
+	p->id = probe_id++;
+	p->magic = LMAGIC;
+	pthread_create(&pr, NULL, steer_probe_thread, p);
+	usleep(30000);
+	for (t = 0; t < nthreads; t++)
+		if (!scripts[t].skip && sim_tid_of[t] > 0 && sim_tid_of[t] != me)
+			usim_freeze(sim_tid_of[t], 0);
+	if (victim)
+		pthread_join(g, NULL);
+	pthread_join(pr, NULL);
+	if (F->is_qsbr)
+		F->thread_online();
+	return victim != NULL;
+}
+
 static void q_call_rcu(struct rcu_head *head, void (*func)(struct rcu_head *head))
 {
+	/* a dummy node handed over for reclamation: remember it if the tail still points to it */
+	struct cds_lfq_node_rcu_dummy *d = caa_container_of(head, struct cds_lfq_node_rcu_dummy, head);
+	if (tail_is(&d->parent))
+		latent_dummy = &d->parent;
 	F->call_rcu(head, func);
 }
 
@@ -86,6 +189,11 @@ static struct lnode *deq(void)
 	}
 	wgl_end(&H, i, n ? n->id : -1);
 	F->read_unlock();
+	if (latent_dummy) {
+		if (tail_is(latent_dummy))
+			steer(NULL);
+		latent_dummy = NULL;
+	}
 	return n;
 }
 
@@ -106,6 +214,8 @@ static void do_op(struct op *op)
 		n = deq();
 		if (!n)
 			break;
+		if (tail_is(&n->n) && steer(n))
+			break;		/* reclaimed by the steering helper after a grace period */
 		if (n->id % 3 == 0) {
 			F->call_rcu(&n->rh, free_node_cb);
 		} else if (n->id % 3 == 1) {
@@ -131,6 +241,7 @@ static void *l_thread(void *arg)
 	int me = (int) (s - scripts), i;
 
 	usim_thread_name("script%d", me);
+	sim_tid_of[me] = usim_tid();
 	if (!F->is_bp)
 		F->register_thread();
 	if (F->is_qsbr)
